@@ -90,6 +90,11 @@ def main():
             shutil.rmtree(d, ignore_errors=True)
     # 2. run my checks against it
     res["checks"] = {}
+    # evidence files describe the unchanged tree: keep them out of the way of the runs on the changed tree
+    evid = os.path.join(VERIF, "evidence")
+    keep = os.path.join(VERIF, ".work", f"evidence-keep-{os.getpid()}")
+    shutil.rmtree(keep, ignore_errors=True)
+    shutil.copytree(evid, keep)
     rc, out = sh(f"git -C {REPO} apply {src}/patch.diff")
     try:
         for c in checks:
@@ -99,6 +104,9 @@ def main():
             res["checks"][c] = {"exit": rc, "violations": len(viol), "first": viol[:2], "tail": out.strip().split("\n")[-2:], "wall": round(time.time() - t0, 1)}
     finally:
         sh(f"git -C {REPO} checkout -- .")
+        shutil.rmtree(evid, ignore_errors=True)
+        shutil.copytree(keep, evid)
+        shutil.rmtree(keep, ignore_errors=True)
     rc, out = sh("git status --porcelain", cwd=REPO)
     assert not out.strip(), out
     res["detected_by"] = [c for c, v in res["checks"].items() if v["exit"] != 0 and v["violations"] > 0]
